@@ -57,6 +57,7 @@ type aop struct {
 	Method  string        `json:"method,omitempty"`  // mgmt: put | delete (of the managed endpoint billing/inv)
 	Route   string        `json:"route,omitempty"`   // mgmt put: the route that gets the management labels
 	Pending string        `json:"pending,omitempty"` // reload / mgmt: edit the file on disk carries at that moment (restart | secret): the reload has to fail
+	Auth    string        `json:"auth,omitempty"`    // reload: the spelling of the route's HMAC auth the file is rewritten in (authforms_test.go); "" = the one in force
 }
 
 func (o aop) String() string {
@@ -70,6 +71,9 @@ func (o aop) String() string {
 	case "reload":
 		if o.Pending != "" {
 			return "reload(" + pend[2:] + ")"
+		}
+		if o.Auth != "" {
+			return fmt.Sprintf("reload(hmac auth respelled as %s)", o.Auth)
 		}
 		return fmt.Sprintf("reload(tolerance=%s)", o.Tol)
 	case "mgmt":
@@ -91,6 +95,7 @@ type variant struct {
 	Drop     string          `json:"drop_policy"` // reject | drop_oldest
 	Grid     []time.Duration `json:"grid"`        // clock positions relative to ts0
 	Ops      []aop           `json:"ops"`         // alphabet besides clock->next
+	Auth     string          `json:"auth,omitempty"` // spelling of the route's HMAC auth at boot (authforms_test.go); "" = inline
 }
 
 var deliverURLs = []string{"https://a.invalid/hook", "https://b.invalid/hook", "https://c.invalid/hook"}
@@ -104,7 +109,7 @@ func (v variant) targets() []string {
 
 // dsl: the Hookaidofile of the variant with tolerance t on the HMAC route /h, the management labels billing/inv on
 // route label ("" = nowhere) and, optionally, a pending operator edit that cannot be applied by a reload.
-func (v variant) dsl(dir string, t time.Duration, label, pending string) string {
+func (v variant) dsl(dir string, t time.Duration, form, label, pending string) string {
 	ing, secret := "127.0.0.1:18080", "raw:k"
 	switch pending {
 	case "restart":
@@ -113,6 +118,8 @@ func (v variant) dsl(dir string, t time.Duration, label, pending string) string 
 		secret = "file:" + filepath.Join(dir, "no-such-secret")
 	}
 	var b strings.Builder
+	top, auth := formOf(form).spell(secret, t)
+	b.WriteString(top)
 	fmt.Fprintf(&b, "ingress   { listen %q }\n", ing)
 	if v.Targets == 0 {
 		b.WriteString("pull_api  { listen \"127.0.0.1:19443\"  auth token \"raw:g1\" }\n")
@@ -137,7 +144,7 @@ func (v variant) dsl(dir string, t time.Duration, label, pending string) string 
 		}
 		return strings.Join(s, "  ")
 	}
-	fmt.Fprintf(&b, "/h { %sauth hmac %q { tolerance %s }  %s }\n", lab("/h"), secret, t, backend("/eh"))
+	fmt.Fprintf(&b, "/h { %s%s  %s }\n", lab("/h"), auth, backend("/eh"))
 	fmt.Fprintf(&b, "/g { %s%s }\n", lab("/g"), backend("/eg"))
 	return b.String()
 }
@@ -189,14 +196,15 @@ type world2 struct {
 	gp    int
 	tol   time.Duration // harness bookkeeping: tolerance of the last reload that succeeded (what reloads keep)
 	label string        // harness bookkeeping: route carrying billing/inv according to the running gateway
+	auth  string        // harness bookkeeping: spelling of the HMAC auth in the file of the last reload that succeeded
 }
 
 func boot2(dir string, v variant) (*world2, error) {
-	w := &world2{v: v, dir: dir, tol: tol}
+	w := &world2{v: v, dir: dir, tol: tol, auth: formOf(v.Auth).Name}
 	w.ts0 = time.Now().Add(tol + 2*time.Second).Truncate(time.Second)
 	// as newQueueStore builds the memory backend from queue_limits
 	w.cs = &countingStore{Store: queue.NewMemoryStore(queue.WithQueueLimits(v.MaxDepth, v.Drop))}
-	a, err := app.VerifBoot(app.VerifBootOptions{Dir: dir, ConfigText: v.dsl(dir, tol, "", ""), Store: w.cs})
+	a, err := app.VerifBoot(app.VerifBootOptions{Dir: dir, ConfigText: v.dsl(dir, tol, w.auth, "", ""), Store: w.cs})
 	if err != nil {
 		return nil, err
 	}
@@ -207,8 +215,10 @@ func boot2(dir string, v variant) (*world2, error) {
 
 func (w *world2) tsOf(i int) int64 { return w.ts0.Add(time.Duration(i) * tol).Unix() }
 
-func (w *world2) write(t time.Duration, pending string) {
-	os.WriteFile(w.a.ConfigPath, []byte(w.v.dsl(w.dir, t, w.label, pending)), 0o644)
+func (w *world2) write(t time.Duration, pending string) { w.writeAs(t, w.auth, pending) }
+
+func (w *world2) writeAs(t time.Duration, form, pending string) {
+	os.WriteFile(w.a.ConfigPath, []byte(w.v.dsl(w.dir, t, form, w.label, pending)), 0o644)
 }
 
 // runtimeLabel: the route the running gateway maps billing/inv to ("" = none).
@@ -244,7 +254,7 @@ func (w *world2) apply(o aop) (code int) {
 	switch o.Kind {
 	case "send":
 		rec := httptest.NewRecorder()
-		w.a.Ingress.ServeHTTP(rec, signedBody(o.Nonce, w.tsOf(o.TS), o.Valid, payloadOf(o.Nonce, o.TS)))
+		w.a.Ingress.ServeHTTP(rec, formOf(w.auth).request(o.Nonce, w.tsOf(o.TS), o.Valid, payloadOf(o.Nonce, o.TS)))
 		return rec.Code
 	case "clock":
 		w.gp++
@@ -259,6 +269,16 @@ func (w *world2) apply(o aop) (code int) {
 				return 0
 			}
 			return -1
+		}
+		if o.Auth != "" {
+			// the operator respells the route's HMAC auth (same signing key, same tolerance)
+			w.writeAs(w.tol, o.Auth, "")
+			if !w.a.Reload("verif") {
+				w.write(w.tol, "")
+				return -1
+			}
+			w.auth = formOf(o.Auth).Name
+			return 0
 		}
 		w.write(o.Tol, "")
 		if !w.a.Reload("verif") {
@@ -305,6 +325,7 @@ type st2 struct {
 	Pair   map[string]string // "<nonce>@ts<i>" -> H (honoured: a copy of it was stored) | E (refused, nothing stored)
 	Enq    map[string]int    // "<nonce>@ts<i>><target>" -> successful enqueues
 	Queued int               // messages in the queue (observed; drains of an empty queue are not enumerated)
+	Auth   string            // spelling of the HMAC auth in force (decides what later reloads write and how requests are sent)
 }
 
 func (s st2) clone() st2 {
@@ -348,7 +369,7 @@ type verdict struct {
 // judge2 is the oracle.
 func judge2(w *world2, pre st2, o aop, ob obs2) (s st2, v verdict) {
 	s = pre.clone()
-	s.Grid, s.Label, v.lab = w.gp, w.label, fmt.Sprint(ob.code)
+	s.Grid, s.Label, s.Auth, v.lab = w.gp, w.label, w.auth, fmt.Sprint(ob.code)
 	bad := func(cls, format string, a ...any) (st2, verdict) {
 		v.cls, v.why = cls, fmt.Sprintf(format, a...)
 		return s, v
@@ -361,6 +382,8 @@ func judge2(w *world2, pre st2, o aop, ob obs2) (s st2, v verdict) {
 		switch {
 		case o.Pending == "" && ob.code != 0:
 			return bad("reload-failed", "reload of a valid configuration failed")
+		case o.Pending == "" && o.Auth != "":
+			v.lab = "respelled:" + pre.Auth + "->" + w.auth // the tolerance stays
 		case o.Pending == "":
 			s.CurTol = o.Tol
 		case ob.code == 0:
@@ -479,7 +502,7 @@ func vioKey2(hist []aop, o aop, cls string) string {
 }
 
 func (w *world2) key(s st2) string {
-	return fmt.Sprintf("g%d|%s|%s|%v|%s", w.gp, s.Label, s.memory(), w.queued(), dump.Canonical(w.a.State, dump.Options{Skip: map[string]bool{
+	return fmt.Sprintf("g%d|%s|%s|%s|%v|%s", w.gp, s.Label, s.Auth, s.memory(), w.queued(), dump.Canonical(w.a.State, dump.Options{Skip: map[string]bool{
 		"mu": true, "now": true, "Now": true, "adaptiveController": true, "routes": true, "pathToRoute": true}}))
 }
 
@@ -551,7 +574,7 @@ func chain(t *testing.T, dir string, v variant, ops []aop) (at int, vd verdict, 
 			return
 		}
 		defer w.a.Shutdown()
-		s := init2()
+		s := v.init()
 		for i, o := range ops {
 			if o.Kind == "clock" && w.gp+1 >= len(v.Grid) {
 				labs = append(labs, "-")
@@ -596,6 +619,8 @@ func shrink(t *testing.T, dir string, v variant, hist []aop, o aop, cls string) 
 }
 
 func init2() st2 { return st2{CurTol: tol, Pair: map[string]string{}, Enq: map[string]int{}} }
+
+func (v variant) init() st2 { s := init2(); s.Auth = formOf(v.Auth).Name; return s }
 
 // ---- alphabets ----------------------------------------------------------------------------------------------------
 
@@ -650,6 +675,7 @@ func variants(thorough bool) []variant {
 		{Name: "fanout2-drop_oldest-depth1", Targets: 2, MaxDepth: 1, Drop: "drop_oldest", Grid: gridMid, Ops: fan},
 		{Name: "pull-management", Targets: 0, Grid: gridMid, Ops: cat(sendsOf("n1", "n1@1"), reloadOps, []aop{{Kind: "drain"}}, mgmtAll(), badReloads)},
 	}
+	quick = append(quick, authVariants(false)...) // authforms_test.go: the spelling of the route's HMAC auth as a configuration / reload dimension
 	if !thorough {
 		return quick
 	}
@@ -660,6 +686,7 @@ func variants(thorough bool) []variant {
 			vs = append(vs, variant{Name: fmt.Sprintf("wide-fanout2-%s-depth%d", drop, depth), Targets: 2, MaxDepth: depth, Drop: drop, Grid: gridFull, Ops: cat(fan, mgmt4, badReloads)})
 		}
 	}
+	vs = append(vs, authVariants(true)...)
 	return append(vs, quick...)
 }
 
@@ -674,7 +701,7 @@ func startAfter(r *runner.Run) *afterRun {
 	n := len(variants(r.Thorough()))
 	go func() {
 		defer close(ar.done)
-		r.RunJobs(n, runner.Pick(r, 4, 7), runner.Pick(r, 6*time.Minute, 40*time.Minute)) // the children stop at their own deadline long before
+		r.RunJobs(n, runner.Pick(r, 6, 10), runner.Pick(r, 6*time.Minute, 40*time.Minute)) // the children stop at their own deadline long before
 	}()
 	return ar
 }
@@ -704,7 +731,7 @@ func afterChild(t *testing.T, job int) {
 	eng := &bfs.Engine[st2, aop]{
 		Name: "c09-" + v.Name, Workers: 1, MaxDepth: 80, MaxTrans: runner.Pick(r, int64(400_000), int64(5_000_000)),
 		Deadline: r.Deadline(45*time.Second, 12*time.Minute),
-		Init:     init2, InitKey: "init",
+		Init:     v.init, InitKey: "init",
 		Enabled: v.enabled, OpName: func(o aop) string { return o.Kind },
 		Step: func(_ int, hist []aop, s st2, o aop) bfs.StepResult[st2] {
 			res := step2(t, dir, v, hist, s, o)
@@ -740,7 +767,7 @@ func afterChild(t *testing.T, job int) {
 		r.Assume("a request that passed the nonce check, was refused for capacity and stored nothing, and is retried unchanged (same nonce) inside the tolerance: the statement does not decide it and both answers are accepted; this tree answers " + strings.Join(l, " / "))
 	}
 	r.Set("after:"+v.Name, map[string]any{"states": res.States, "transitions": res.Transitions, "depth_completed": res.DepthCompleted, "exhaustive": res.Exhaustive, "cap_hit": res.CapHit,
-		"targets": max(1, v.Targets), "max_depth": v.MaxDepth, "drop_policy": v.Drop, "clock_positions": len(v.Grid), "alphabet": hist2text(v.Ops), "outcomes": outcomes})
+		"targets": max(1, v.Targets), "max_depth": v.MaxDepth, "drop_policy": v.Drop, "clock_positions": len(v.Grid), "hmac_auth_at_boot": formOf(v.Auth).Name, "alphabet": hist2text(v.Ops), "outcomes": outcomes})
 	if !res.Exhaustive {
 		r.NotExhaustive(fmt.Sprintf("after:%s: %s after depth %d", v.Name, res.CapHit, res.DepthCompleted))
 	}
@@ -763,6 +790,9 @@ func afterChild(t *testing.T, job int) {
 		hist := shrink(t, dir, v, vio.Hist, vio.Op, vd.cls)
 		_, vd, _, _ = chain(t, dir, v, append(append([]aop{}, hist...), vio.Op))
 		key := vioKey2(hist, vio.Op, vd.cls)
+		if vd.cls == "replay" {
+			key += authSuffix(v, hist, vio.Op)
+		}
 		if reported[key] {
 			continue
 		}
@@ -774,10 +804,14 @@ func afterChild(t *testing.T, job int) {
 }
 
 func (v variant) describe() string {
-	if v.Targets == 0 {
-		return "HMAC route with a pull endpoint, unbounded queue"
+	auth := ""
+	if f := formOf(v.Auth).Name; f != "inline" {
+		auth = ", HMAC auth spelled " + f + " at boot"
 	}
-	return fmt.Sprintf("HMAC route with %d deliver targets, queue_limits { max_depth %d  drop_policy %s }", v.Targets, v.MaxDepth, v.Drop)
+	if v.Targets == 0 {
+		return "HMAC route with a pull endpoint, unbounded queue" + auth
+	}
+	return fmt.Sprintf("HMAC route with %d deliver targets, queue_limits { max_depth %d  drop_policy %s }%s", v.Targets, v.MaxDepth, v.Drop, auth)
 }
 
 // replayAfter re-runs a replay document of this part (engine "after"): the history step by step under the oracle.
@@ -816,7 +850,11 @@ func replayAfter(r *runner.Run, t *testing.T, path string) {
 	r.Add("traces_validated_against_impl", 1)
 	r.Sample(map[string]any{"replayed": path})
 	if at >= 0 {
-		r.Violation("replay:"+vioKey2(hist[:at], hist[at], vd.cls), fmt.Sprintf("configuration %s (%s), after %v, %s: %s", v.Name, v.describe(), hist2text(hist[:at]), hist[at], vd.why),
+		key := vioKey2(hist[:at], hist[at], vd.cls)
+		if vd.cls == "replay" {
+			key += authSuffix(v, hist[:at], hist[at])
+		}
+		r.Violation("replay:"+key, fmt.Sprintf("configuration %s (%s), after %v, %s: %s", v.Name, v.describe(), hist2text(hist[:at]), hist[at], vd.why),
 			map[string]any{"engine": "after", "variant": v, "history": hist[:at], "op": hist[at]}, nil)
 	} else {
 		fmt.Printf("REPLAY property=%s configuration=%s: the history no longer violates the property\n", r.Prop, v.Name)
